@@ -40,14 +40,15 @@ type Options struct {
 
 // Env is a running server plus an authenticated admin client.
 type Env struct {
-	Y       *server.Yorkie
-	BE      *backend.Backend
-	Addr    string
-	Admin   *admin.Client
-	HTTP    *http.Client
-	Conf    *server.Config
-	mu      sync.Mutex
-	projSeq int
+	Y                  *server.Yorkie
+	BE                 *backend.Backend
+	Addr               string
+	Admin              *admin.Client
+	HTTP               *http.Client
+	Conf               *server.Config
+	AdminUser, AdminPW string
+	mu                 sync.Mutex
+	projSeq            int
 }
 
 var logOnce sync.Once
@@ -157,8 +158,16 @@ func Start(o Options) (*Env, error) {
 		if err != nil {
 			return nil, err
 		}
-		if _, err := ac.LogIn(context.Background(), server.DefaultAdminUser, server.DefaultAdminPassword); err != nil {
-			return nil, fmt.Errorf("admin login: %w", err)
+		env.AdminUser, env.AdminPW = server.DefaultAdminUser, server.DefaultAdminPassword
+		if _, err := ac.LogIn(context.Background(), env.AdminUser, env.AdminPW); err != nil {
+			// without the default project the default user does not exist: sign one up
+			env.AdminUser, env.AdminPW = "verifadmin", "Verif-admin-pw-123!"
+			if _, e2 := ac.SignUp(context.Background(), env.AdminUser, env.AdminPW); e2 != nil {
+				return nil, fmt.Errorf("admin login: %w; sign-up: %v", err, e2)
+			}
+			if _, e2 := ac.LogIn(context.Background(), env.AdminUser, env.AdminPW); e2 != nil {
+				return nil, fmt.Errorf("admin login after sign-up: %w", e2)
+			}
 		}
 		env.Admin = ac
 		return env, nil
